@@ -1,20 +1,31 @@
 /-
-Model of `MacroResolutionOrderVisitor` (explorerscript/ssb_converting/compiler/compiler_visitor/macro_resolution_order.py)
-and of the use `MacroVisitor.visitStart` makes of its result (macro_visitor.py), on an abstract input:
+Model of `MacroResolutionOrderVisitor` (explorerscript/ssb_converting/compiler/compiler_visitor/macro_resolution_order.py,
+as repaired by /repo commit 0989cb8 "macros are resolved in a topological order of their calls") and of the use
+`MacroVisitor.visitStart` makes of its result (macro_visitor.py), on an abstract input:
 
   * `imported` — the keys of `in_macros` (macros of the imported files) in dict order,
   * `defs`     — the macro definitions of the file in definition order, each with the names of the macros its body
                  calls, in call order (parse-tree order of the `macro_call` nodes).
 
-What igraph does is modelled as far as the visitor uses it (checked against the real igraph on every run by the
+What igraph does is modelled as far as the visitor uses it (compared with the real code on every run by the
 correspondence channel of harness/props/c05.py):
 
-  * a vertex per distinct name in creation order (vertex id = position in `vs`), an edge callee → caller per distinct
-    pair in creation order (`are_adjacent` prevents multi-edges);
-  * `bfsiter(v)`: mode OUT, a vertex is marked when it is put into the queue, the out-neighbours of a vertex are
-    visited in the order of their *vertex ids* (igraph's adjacency index is sorted by (from, to); measured against
-    igraph 0.11.6 on 12 000 random graphs — NOT edge-creation order);
+  * a vertex per distinct name in creation order = order of first mention (vertex id = position in `vs`), an edge
+    callee → caller per distinct pair (`are_adjacent` prevents multi-edges);
+  * `v.in_edges()` = the edges whose target is `v`;
   * `get_all_simple_paths(a, b)` is non-empty iff `a ≠ b` and `b` is reachable from `a`.
+
+The ordering loop of `visitStart`, statement by statement:
+
+    names = [v["name"] for v in g.vs]                                   `g.vs`
+    callees = {v: {source names of v.in_edges()}}                       `g.preds v` (as a set: only membership is used)
+    resolution_order = []                                               `out`
+    while len(names) > 0:                                               `orderLoop`
+        next_name = next(n for n in names if callees[n].issubset(resolution_order))      `names.find? …`, `none` = StopIteration
+        resolution_order.append(next_name)                              `out ++ [n]`
+        names.remove(next_name)                                         `names.erase n`
+
+The algorithm of the pinned tree (one BFS per root, remove-then-append merge) is kept in ESV/Macro/Pinned.lean.
 
 Core Lean only; names are an arbitrary type with decidable equality (`String` in the driver, `Nat` in the kernel-evaluated
 witnesses).
@@ -75,29 +86,21 @@ def hasPath (g : Graph α) (a b : α) : Bool := a ≠ b && g.reach a b
 def checkCycles (g : Graph α) : Option α :=
   g.vs.find? (fun v => (g.nbrs v).any (fun t => g.hasPath t v) || (g.nbrs v).any (fun t => t = v))
 
-/-- `[v for v in vs if len(v.in_edges()) == 0]` -/
-def roots (g : Graph α) : List α := g.vs.filter (fun v => g.es.all (fun e => e.2 ≠ v))
+/-- `callees[v]`: the sources of the in-edges of `v` = the macros `v` calls -/
+def preds (g : Graph α) (v : α) : List α := g.vs.filter (fun u => (u, v) ∈ g.es)
 
-/-- `bfsiter`: `done` = vertices already yielded, `queue` = marked and waiting -/
-def bfsLoop (g : Graph α) : Nat → List α → List α → List α
-  | 0, done, queue => done ++ queue
-  | _ + 1, done, [] => done
-  | f + 1, done, v :: q =>
-    let new := (g.nbrs v).filter (fun w => w ∉ done ++ v :: q)
-    g.bfsLoop f (done ++ [v]) (q ++ new)
+/-- the `while len(names) > 0` loop; `none` = `StopIteration` out of `next(…)`.  Every round removes one name, so
+`names.length` rounds of fuel suffice (`orderLoop` is started with exactly that; the second clause is never reached) -/
+def orderLoop (g : Graph α) : Nat → List α → List α → Option (List α)
+  | _, out, [] => some out
+  | 0, _, _ :: _ => none
+  | f + 1, out, names =>
+    match names.find? (fun n => (g.preds n).all (fun u => u ∈ out)) with
+    | none => none
+    | some n => g.orderLoop f (out ++ [n]) (names.erase n)
 
-def bfs (g : Graph α) (r : α) : List α := g.bfsLoop g.vs.length [] [r]
-
-/-- the inner `for sv in bfsiter(root)`: `if sv in order: order.remove(sv)` -/
-def eraseAll (order loc : List α) : List α :=
-  loc.foldl (fun o sv => if sv ∈ o then o.erase sv else o) order
-
-/-- one iteration of `for v in roots` -/
-def mergeRoot (g : Graph α) (order : List α) (r : α) : List α :=
-  let loc := g.bfs r
-  eraseAll order loc ++ loc
-
-def resolutionOrder (g : Graph α) : List α := g.roots.foldl g.mergeRoot []
+/-- the part of `visitStart` after `_check_cycles()` -/
+def resolutionOrder (g : Graph α) : Option (List α) := g.orderLoop g.vs.length [] g.vs
 
 end Graph
 
@@ -105,17 +108,26 @@ end Graph
 def build (inp : Input α) : Graph α :=
   inp.defs.foldl Graph.addDef (inp.imported.foldl Graph.createVertex ⟨[], []⟩)
 
-/-- `MacroResolutionOrderVisitor.visitStart`: `error v` = SsbCompilerError "Dependency cycle detected … (for macro 'v')" -/
-def visitStart (inp : Input α) : Except α (List α) :=
+inductive VisitErr (α : Type) where
+  | cycle (v : α)       -- SsbCompilerError "Dependency cycle detected … (for macro 'v')"
+  | stopIteration       -- `next(…)` found no macro whose callees are all resolved (never happens: `visit_never_stops`)
+  deriving DecidableEq, Repr
+
+/-- `MacroResolutionOrderVisitor.visitStart` -/
+def visitStart (inp : Input α) : Except (VisitErr α) (List α) :=
   let g := build inp
   match g.checkCycles with
-  | some v => .error v
-  | none => .ok g.resolutionOrder
+  | some v => .error (.cycle v)
+  | none =>
+    match g.resolutionOrder with
+    | some l => .ok l
+    | none => .error .stopIteration
 
 /-! ### `MacroVisitor.visitStart` -/
 
 inductive CompileErr (α : Type) where
   | cycle (v : α)          -- SsbCompilerError from `_check_cycles`
+  | stopIteration          -- see `VisitErr`
   | valueError (n : α)     -- `list.index`: a defined macro is not in the resolution order
   | notFound (n : α)       -- SsbCompilerError "Macro n not found." from MacroCallCompileHandler.collect
   deriving DecidableEq, Repr
@@ -144,58 +156,18 @@ def firstFailure : List α → List (α × List α) → Option (α × List α)
     | [] => firstFailure (known ++ [d.1]) rest
     | cs => some (d.1, cs)
 
+/-- sort + compile with a given resolution order -/
+def compileWith (inp : Input α) (order : List α) : Except (CompileErr α) (List α) :=
+  match sortDefs order inp.defs with
+  | .error e => .error e
+  | .ok sorted => compileLoop inp.imported sorted
+
 /-- what `ExplorerScriptSsbCompiler.compile` does with the macros of one file, as far as ordering is concerned;
 `ok l` = the names in `compiler_ctx.macros` afterwards -/
 def compileMacros (inp : Input α) : Except (CompileErr α) (List α) :=
   match visitStart inp with
-  | .error v => .error (.cycle v)
-  | .ok order =>
-    match sortDefs order inp.defs with
-    | .error e => .error e
-    | .ok sorted => compileLoop inp.imported sorted
-
-/-! ### decidable guard of `order_topological_partial` -/
-
-/-- BFS layers: `layers g f seen cur` = the successive frontiers -/
-def Graph.layers (g : Graph α) : Nat → List α → List α → List (List α)
-  | 0, _, _ => []
-  | f + 1, seen, cur =>
-    if cur = [] then [] else
-      let nxt := g.vs.filter (fun w => w ∉ seen ∧ ∃ v ∈ cur, (v, w) ∈ g.es)
-      cur :: g.layers f (seen ++ nxt) nxt
-
-/-- number of the layer (distance from the root) of `x`; `0` for vertices that are not reached -/
-def levelIn : List (List α) → α → Nat
-  | [], _ => 0
-  | l :: rest, x => if x ∈ l then 0 else levelIn rest x + 1
-
-def Graph.level (g : Graph α) (r : α) : α → Nat := levelIn (g.layers (g.vs.length + 1) [r] [r])
-
-/-- every edge leaving a vertex that the search from root `r` reaches goes up exactly one level of `r`:
-all call chains between a macro and a leaf macro `r` have the same length -/
-def Graph.gradedFrom (g : Graph α) (r : α) : Bool :=
-  g.es.all (fun e => e.1 ∈ g.bfs r → g.level r e.2 = g.level r e.1 + 1)
-
-def Graph.graded (g : Graph α) : Bool := g.roots.all g.gradedFrom
-
-def guard (inp : Input α) : Bool := (build inp).graded
-
-/-! ### a correct ordering (backs the proposed repair) -/
-
-/-- callees of `v` in the graph = sources of its in-edges -/
-def Graph.preds (g : Graph α) (v : α) : List α := g.vs.filter (fun u => (u, v) ∈ g.es)
-
-/-- repeatedly emit the first vertex all of whose predecessors have been emitted (stable Kahn) -/
-def Graph.topoLoop (g : Graph α) : Nat → List α → List α → Option (List α)
-  | _, out, [] => some out
-  | 0, _, _ :: _ => none
-  | f + 1, out, rem =>
-    match rem.find? (fun v => (g.preds v).all (fun u => u ∈ out)) with
-    | none => none
-    | some v => g.topoLoop f (out ++ [v]) (rem.erase v)
-
-def Graph.topoOrder (g : Graph α) : Option (List α) := g.topoLoop g.vs.length [] g.vs
-
-def topoOrder (inp : Input α) : Option (List α) := (build inp).topoOrder
+  | .error (.cycle v) => .error (.cycle v)
+  | .error .stopIteration => .error .stopIteration
+  | .ok order => compileWith inp order
 
 end ESV.Macro
